@@ -88,7 +88,9 @@ NumCases == [ds : Digs, n : Exps, neg : BOOLEAN]
 
 Malformed == {"duplicateMember", "duplicateMemberViaEscape", "unterminatedString", "unterminatedObject", "unterminatedArray", "invalidEscape", "shortUnicodeEscape",
               "loneHighSurrogate", "loneLowSurrogate", "reversedSurrogates", "highHighSurrogates", "highThenNonSurrogateEscape",
-              "rawControlCharacter", "rawNewline", "controlCharacterBetweenTokens", "trailingContent", "trailingComma", "leadingComma", "missingColon", "bareWord", "emptyInput"}
+              "rawControlCharacter", "rawNewline", "controlCharacterBetweenTokens", "trailingContent", "trailingComma", "leadingComma", "missingColon", "bareWord", "emptyInput",
+              \* a token in number position that is no JSON number (hexadecimal float, digit separators, leading + / zeros, bare point)
+              "malformedNumber"}
 
 Init == \/ \E S \in KeySets : cs = [kind |-> "keys", set |-> S] /\ out = [order |-> SortNames(S)]
         \/ \E c \in NumCases : cs = [kind |-> "number", ds |-> c.ds, n |-> c.n, neg |-> c.neg,
